@@ -81,6 +81,74 @@ def guarded_values(P, body, S, p, blk, idx, depth=0):
     return out
 
 
+def assignments_of(P, body, S, p, depth=0):
+    """Every assignment that can supply the value read at place `p` - a local, or one field of a struct local that is filled piece by
+    piece: [(value term, canonical conditions at the assignment, (block, index))].  A value that travels through unnamed temporaries or
+    is destructured out of a struct local (`let Acc { sni, .. } = acc;`) is followed to where it was assigned.  The carrier of a value
+    (a local of its own, a field of an accumulator struct) does not change the list."""
+    out = []
+    if depth > 6:
+        return out
+    l, pr = p["l"], p["pr"]
+    defs = S.defs().get(l, [])
+    if not pr:
+        for (db, dj, full) in defs:
+            if not full:
+                continue
+            if dj >= 0:
+                st = body.blocks[db]["s"][dj]
+                r = st.get("r") or {}
+                if r.get("k") == "use":
+                    q = r["o"].get("m") or r["o"].get("c")
+                    # a copy / move out of another local or of one field of it: follow
+                    if q is not None and (not q["pr"] or (len(q["pr"]) == 1 and isinstance(q["pr"][0], dict) and "f" in q["pr"][0])) and \
+                            (len(defs) == 1) and (not body.local_name(l) or q["pr"]):
+                        sub = assignments_of(P, body, S, q, depth + 1)
+                        if sub:
+                            out.extend(sub)
+                            continue
+            out.append((S.def_term(l, db, dj, 0), Q.canon_conds(P, T.dom_conds(body, S, db)), (db, dj)))
+        return out
+    if len(pr) == 1 and isinstance(pr[0], dict) and "f" in pr[0]:
+        want = pr[0]["f"]
+        for (db, dj, full) in defs:
+            conds = Q.canon_conds(P, T.dom_conds(body, S, db))
+            if dj >= 0:
+                st = body.blocks[db]["s"][dj]
+                spr = st["p"]["pr"]
+                if spr:
+                    if len(spr) >= 1 and isinstance(spr[0], dict) and spr[0].get("f") == want:
+                        t = S.rvalue(st["r"], db, dj) if st["k"] == "assign" else ("unknown", "setdiscr")
+                        out.append((t if len(spr) == 1 else ("partial", tuple(T._projkey(x) for x in spr[1:]), t), conds, (db, dj)))
+                    continue
+                # the whole struct assigned at once: from another local (follow its field), or built by a constructor (follow the operand)
+                r = st.get("r") or {}
+                if st["k"] == "assign" and r.get("k") == "use":
+                    q = r["o"].get("m") or r["o"].get("c")
+                    if q is not None and not q["pr"]:
+                        sub = assignments_of(P, body, S, {"l": q["l"], "pr": list(pr)}, depth + 1)
+                        if sub:
+                            out.extend(sub)
+                            continue
+                if st["k"] == "assign" and r.get("k") == "agg" and r.get("fields") and (pr[0].get("n") in r["fields"] or want < len(r["ops"])):
+                    k_ = r["fields"].index(pr[0]["n"]) if pr[0].get("n") in r["fields"] else want
+                    o_ = r["ops"][k_]
+                    q = o_.get("m") or o_.get("c")
+                    sub = assignments_of(P, body, S, q, depth + 1) if q is not None and not q["pr"] else []
+                    if sub:
+                        out.extend(sub)
+                    else:
+                        out.append((S.operand(o_, db, dj), conds, (db, dj)))
+                    continue
+            t = S.def_term(l, db, dj, 0)
+            if t[0] == "partial":
+                if t[1] and t[1][0][0] == "f" and t[1][0][1] in (want, pr[0].get("n")):
+                    out.append((t[2], conds, (db, dj)))
+                continue
+            out.append((T.field(t, pr[0].get("n", want), want), conds, (db, dj)))
+    return out
+
+
 def is_none(term):
     t = T.strip(term)
     return t[0] == "agg" and t[3] == "None" and not t[4]
